@@ -816,6 +816,294 @@ theorem stale_id_is_handed_out_again :
   simp only [NoStale, st]
   decide
 
+/-- operations on the session table that reach the exchange slots of a session -/
+inductive XOp
+  /-- `Exchange::initiate_for_session` (`cand`: the random `u16` of the allocator's lazy seeding) -/
+  | initiate (uid now cand : Nat)
+  /-- a message received on session `uid`: `Session::post_recv` (opens a responder exchange for a new id) -/
+  | recv (uid : Nat) (h : RxHdr) (now : Nat)
+  /-- `Exchange::drop` → `remove_exch` -/
+  | drop (uid i now : Nat)
+  /-- `accept_if`: AcceptPending → Owned -/
+  | accept (uid i now : Nat)
+  /-- `Session::pre_send` -/
+  | send (uid : Nat) (idx : Option Nat) (rel : Bool) (ha sai : Option Nat) (now : Nat)
+  /-- `handle_dropped_exchange` frees a slot -/
+  | freeSlot (uid i now : Nat)
+  | addSess (ctr : Nat) (rsv : Bool) (now port : Nat)
+  | rmSess (uid : Nat)
+
+/-- look the session up (`Sessions::get`), change it, write it back -/
+def withSessT (t : Table) (uid now : Nat) (f : Sess → Sess) : Table :=
+  match t.get uid now with
+  | (t1, none) => t1
+  | (t1, some s) => t1.setSess (f s)
+
+def stepX (t : Table) : XOp → Table
+  | .initiate uid now cand => (t.initiateS uid now cand).1
+  | .recv uid h now => withSessT t uid now (fun s => (s.postRecv h now).1)
+  | .drop uid i now => (t.dropExchange uid i now).1
+  | .accept uid i now => (t.accept uid i now).1
+  | .send uid idx rel ha sai now => withSessT t uid now (fun s => (s.preSend idx rel ha sai).1)
+  | .freeSlot uid i now => withSessT t uid now (fun s => { s with exchs := s.exchs.set i none })
+  | .addSess ctr rsv now port => (t.add ctr rsv now port).1
+  | .rmSess uid => (t.remove uid).1
+
+def runX : Table → List XOp → Table
+  | t, [] => t
+  | t, op :: ops => runX (stepX t op) ops
+
+/-- the table invariant: allocator position in the `u16` range, capacities, (id, role) unique per session -/
+structure XInv (t : Table) : Prop where
+  range : t.nextExch ≤ 65535
+  cap : Cap t
+  uniq : ∀ s ∈ t.sessions, ExchUniq s
+
+theorem exchUniq_touch (s : Sess) (now : Nat) (hu : ExchUniq s) : ExchUniq { s with lastUse := now } :=
+  fun i j e f hi hj => hu i j e f hi hj
+
+theorem xinv_get {t : Table} (g : XInv t) (uid now : Nat) : XInv (t.get uid now).1 := by
+  rcases get_cases t uid now with h | ⟨i, s, hs, hu, hf, h⟩
+  · rw [h]; exact g
+  · rw [h]
+    have hmem : s ∈ t.sessions := List.mem_iff_getElem?.2 ⟨i, hs⟩
+    refine { range := g.range, cap := ⟨by simpa using g.cap.1, ?_⟩, uniq := ?_ }
+    · intro x hx
+      rcases List.mem_or_eq_of_mem_set hx with h1 | h1
+      · exact g.cap.2 x h1
+      · subst h1; exact g.cap.2 s hmem
+    · intro x hx
+      rcases List.mem_or_eq_of_mem_set hx with h1 | h1
+      · exact g.uniq x h1
+      · subst h1; exact exchUniq_touch s now (g.uniq s hmem)
+
+/-- the generic step: a session-level operation that keeps uid, capacity and (id, role) uniqueness -/
+theorem xinv_withSess {t : Table} (g : XInv t) (uid now : Nat) (f : Sess → Sess)
+    (huid : ∀ s, (f s).uid = s.uid)
+    (hf : ∀ s, ExchUniq s → s.exchs.length ≤ Consts.maxExchanges →
+      ExchUniq (f s) ∧ (f s).exchs.length ≤ Consts.maxExchanges) : XInv (withSessT t uid now f) := by
+  unfold withSessT
+  rcases get_cases t uid now with h | ⟨i, s, hs, hu, hfi, h⟩
+  · rw [h]; exact g
+  · rw [h]
+    simp only
+    rw [setSess_after_get t i ({ s with lastUse := now }) (f { s with lastUse := now }) uid hfi hu
+      (by rw [huid]; exact hu)]
+    have hmem : s ∈ t.sessions := List.mem_iff_getElem?.2 ⟨i, hs⟩
+    have hfs := hf { s with lastUse := now } (exchUniq_touch s now (g.uniq s hmem)) (g.cap.2 s hmem)
+    refine { range := g.range, cap := ⟨by simpa using g.cap.1, ?_⟩, uniq := ?_ }
+    · intro x hx
+      rcases List.mem_or_eq_of_mem_set hx with h1 | h1
+      · exact g.cap.2 x h1
+      · subst h1; exact hfs.2
+    · intro x hx
+      rcases List.mem_or_eq_of_mem_set hx with h1 | h1
+      · exact g.uniq x h1
+      · subst h1; exact hfs.1
+
+theorem preSend_keys (s : Sess) (idx : Option Nat) (rel : Bool) (ha sai : Option Nat) (k : Nat) (e' : Exch)
+    (hk : (s.preSend idx rel ha sai).1.slot k = some e') :
+    ∃ e, s.slot k = some e ∧ e.id = e'.id ∧ e.role.isResponder = e'.role.isResponder := by
+  cases idx with
+  | none => exact ⟨e', hk, rfl, rfl⟩
+  | some i =>
+    cases hs : s.slot i with
+    | none =>
+      have : (s.preSend (some i) rel ha sai).1 = s := by simp [Sess.preSend, hs]
+      rw [this] at hk
+      exact ⟨e', hk, rfl, rfl⟩
+    | some e =>
+      rw [(TxWire.preSend_some_spec s i e rel ha sai hs).1 k] at hk
+      split at hk
+      · rename_i hik
+        subst hik
+        cases hk
+        exact ⟨e, hs, rfl, rfl⟩
+      · exact ⟨e', hk, rfl, rfl⟩
+
+theorem xinv_step {t : Table} (g : XInv t) (op : XOp) : XInv (stepX t op) := by
+  cases op with
+  | initiate uid now cand =>
+    simp only [stepX]
+    unfold Table.initiateS
+    have g1 := xinv_get g uid now
+    rcases get_cases t uid now with h | ⟨i, s, hs, hu, hfi, h⟩
+    · rw [h]; exact g
+    · rw [h] at g1 ⊢
+      simp only at g1 ⊢
+      generalize hs1 : ({ s with lastUse := now } : Sess) = s1 at g1 ⊢
+      have hs1uid : s1.uid = uid := by rw [← hs1]; exact hu
+      generalize ht1 : ({ t with sessions := t.sessions.set i s1 } : Table) = t1 at g1 ⊢
+      have ht1s : t1.sessions = t.sessions.set i s1 := by rw [← ht1]
+      have hilt : i < t.sessions.length := (List.getElem?_eq_some_iff.1 hs).1
+      have hmem1 : s1 ∈ t1.sessions := by rw [ht1s]; exact List.mem_set hilt s1
+      split
+      · exact g1
+      · -- the allocator (seeded if it never was) answers an id no live initiator exchange of the table has
+        have hrange := seedExch_range t1 cand g1.range
+        have hsess : (t1.seedExch cand).sessions = t1.sessions := seedExch_sessions t1 cand
+        have hlen : (t1.seedExch cand).liveInitExchIds.length < 65535 := by
+          have := (cap_lengths t1 g1.cap).2
+          unfold Table.liveInitExchIds at this ⊢
+          rw [hsess]; exact this
+        have hfresh := nextExchId_fresh (t1.seedExch cand) hrange.1 hrange.2 hlen
+        have hnr := nextExchId_range (t1.seedExch cand)
+        have hns : (t1.seedExch cand).nextExchId.1.sessions = t1.sessions := hsess
+        cases ha : s1.addExch (t1.seedExch cand).nextExchId.2 .io with
+        | none =>
+          simp only
+          exact { range := hnr.2, cap := by unfold Cap; rw [hns]; exact g1.cap,
+                  uniq := by rw [hns]; exact g1.uniq }
+        | some p =>
+          obtain ⟨s2, i2⟩ := p
+          simp only
+          have hul := addExch_uid_len s1 s2 _ .io i2 ha
+          have hu2 : ExchUniq s2 := exchUniq_addInit s1 s2 _ i2 (g1.uniq s1 hmem1)
+            (fun hin => hfresh (by
+              unfold Table.liveInitExchIds
+              rw [hsess]
+              exact List.mem_flatMap.2 ⟨s1, hmem1, hin⟩)) ha
+          have hss : ((t1.seedExch cand).nextExchId.1.setSess s2).sessions = t.sessions.set i s2 :=
+            setSess_sessions_of _ t.sessions i s1 s2 uid (by rw [hns, ht1s]) hfi hs1uid (by rw [hul.1]; exact hs1uid)
+          refine { range := by rw [setSess_nextExch]; exact hnr.2, cap := ?_, uniq := ?_ }
+          · unfold Cap
+            rw [hss]
+            refine ⟨by simpa using g.cap.1, ?_⟩
+            intro x hx
+            rcases List.mem_or_eq_of_mem_set hx with h1 | h1
+            · exact g.cap.2 x h1
+            · subst h1; exact hul.2 (g1.cap.2 s1 hmem1)
+          · rw [hss]
+            intro x hx
+            rcases List.mem_or_eq_of_mem_set hx with h1 | h1
+            · exact g.uniq x h1
+            · subst h1; exact hu2
+  | recv uid h now =>
+    exact xinv_withSess g uid now _ (fun s => (postRecv_uid_len s h now).1)
+      (fun s hu hl => ⟨exchUniq_postRecv s h now hu, (postRecv_uid_len s h now).2 hl⟩)
+  | drop uid i now =>
+    have : (t.dropExchange uid i now).1 = withSessT t uid now (fun s => (s.removeExch i).1) := by
+      unfold Table.dropExchange withSessT
+      generalize t.get uid now = r
+      obtain ⟨t1, so⟩ := r
+      cases so <;> rfl
+    simp only [stepX]
+    rw [this]
+    exact xinv_withSess g uid now _ (fun s => (removeExch_uid_len s i).1)
+      (fun s hu hl => ⟨exchUniq_removeExch s i hu, by rw [(removeExch_uid_len s i).2]; exact hl⟩)
+  | accept uid i now =>
+    let f : Sess → Sess := fun s => match s.slot i with
+      | some e => if e.role = .rp then { s with exchs := s.exchs.set i (some { e with role := .ro }) } else s
+      | none => s
+    have hget := xinv_get g uid now
+    simp only [stepX]
+    unfold Table.accept
+    rcases get_cases t uid now with h | ⟨j, s, hs, hu, hfi, h⟩
+    · rw [h]; exact g
+    · rw [h] at hget ⊢
+      simp only at hget ⊢
+      split
+      · rename_i e he
+        split
+        · rename_i hrp
+          have hw := xinv_withSess g uid now f
+            (fun s => by
+              simp only [f]
+              split
+              · split <;> rfl
+              · rfl)
+            (fun s hu hl => by
+              simp only [f]
+              split
+              · rename_i e0 he0
+                split
+                · rename_i hrp0
+                  refine ⟨exchUniq_of_keys s _ hu ?_, by simpa using hl⟩
+                  intro k e' hk
+                  rw [slot_set] at hk
+                  split at hk
+                  · rename_i hik
+                    subst hik
+                    split at hk
+                    · cases hk
+                      exact ⟨e0, he0, rfl, by rw [hrp0]; rfl⟩
+                    · cases hk
+                  · exact ⟨e', hk, rfl, rfl⟩
+                · exact ⟨hu, hl⟩
+              · exact ⟨hu, hl⟩)
+          unfold withSessT at hw
+          rw [h] at hw
+          simp only [f, he, hrp, ↓reduceIte] at hw
+          exact hw
+        · exact hget
+      · exact hget
+  | send uid idx rel ha sai now =>
+    exact xinv_withSess g uid now _ (fun s => (preSend_uid_len s idx rel ha sai).1)
+      (fun s hu hl => ⟨exchUniq_of_keys s _ hu (preSend_keys s idx rel ha sai),
+        by rw [(preSend_uid_len s idx rel ha sai).2]; exact hl⟩)
+  | freeSlot uid i now =>
+    refine xinv_withSess g uid now _ (fun s => rfl) (fun s hu hl => ⟨exchUniq_of_keys s _ hu ?_, by simpa using hl⟩)
+    intro k e' hk
+    obtain ⟨hk', _⟩ := TxWire.slot_freed s i k e' hk
+    exact ⟨e', hk', rfl, rfl⟩
+  | addSess ctr rsv now port =>
+    simp only [stepX]
+    unfold Table.add
+    simp only
+    split
+    · exact { range := g.range, cap := g.cap, uniq := g.uniq }
+    · rename_i hcap
+      simp only [ge_iff_le, Nat.not_le] at hcap
+      refine { range := g.range, cap := ⟨?_, ?_⟩, uniq := ?_ }
+      · simp only [List.length_append, List.length_cons, List.length_nil]; omega
+      · intro x hx
+        rcases List.mem_append.1 hx with h1 | h1
+        · exact g.cap.2 x h1
+        · simp only [List.mem_singleton] at h1; subst h1; exact Nat.zero_le _
+      · intro x hx
+        rcases List.mem_append.1 hx with h1 | h1
+        · exact g.uniq x h1
+        · simp only [List.mem_singleton] at h1
+          subst h1
+          intro a b e f hi
+          simp [Sess.slot] at hi
+  | rmSess uid =>
+    simp only [stepX]
+    unfold Table.remove
+    split
+    · refine { range := g.range, cap := ⟨Nat.le_trans (swapRemove_length_le _ _) g.cap.1, ?_⟩, uniq := ?_ }
+      · intro x hx; exact g.cap.2 x (swapRemove_mem _ _ x hx)
+      · intro x hx; exact g.uniq x (swapRemove_mem _ _ x hx)
+    · exact g
+
+/-- **Exchange ids are unique among the live exchanges of their role — along every history.** Start
+from a table within capacity on which every session has (id, role) unique among its live exchanges
+(e.g. the empty, never used table: the allocator's `next_exch_id = 0` "not seeded" state is
+handled by the seeding branch); run ANY history of `initiate_for_session` (id from
+`get_next_exch_id`), received messages (open responder exchanges), exchange drops, accepts,
+sends, freed slots, sessions added and removed: on every session of the final table no two live
+exchanges share (exchange id, role). -/
+theorem exchIds_unique_always (t0 : Table) (hcap : Cap t0) (hr : t0.nextExch ≤ 65535)
+    (hu : ∀ s ∈ t0.sessions, ExchUniq s) (ops : List XOp) :
+    ∀ s ∈ (runX t0 ops).sessions, ExchUniq s := by
+  have key : ∀ (ops : List XOp) (t : Table), XInv t → XInv (runX t ops) := by
+    intro ops
+    induction ops with
+    | nil => intro t g; exact g
+    | cons op ops ih => intro t g; exact ih _ (xinv_step g op)
+  exact (key ops t0 { range := hr, cap := hcap, uniq := hu }).uniq
+
+/-- non-vacuity, from the default table (allocator not seeded, seed drawn = 0x1234): two initiated
+exchanges, a received message opening a responder exchange with the SAME id 0x1234 (other role), a
+drop + freed slot, another initiate -/
+example :
+    let hdr : RxHdr := { ctr := 9, exch := 0x1234, initiator := true, ack := none, reliable := true, newOk := true }
+    let t := runX {} [.addSess 5 false 0 0, .initiate 0 1 0x1234, .initiate 0 2 0, .recv 0 hdr 3, .drop 0 0 4,
+      .freeSlot 0 0 5, .initiate 0 6 0]
+    t.sessions.map (fun s => s.exchs.map (fun o => o.map (fun e => (e.id, e.role.isResponder)))) =
+      [[none, some (0x1235, false), some (0x1234, true), some (0x1236, false)]] := by
+  decide
+
 /-! ## 4. The payload of a retransmission (`TxMessage::complete`, repo fix `C15-retransmission-rebuilt-differs`) -/
 
 open TxGuard in
